@@ -1,0 +1,221 @@
+//go:build verif
+
+// A cheating prover for the external verification harness (/verif, property C17). Compiled only with
+// the build tag verif; nothing in the library refers to it.
+//
+// VerifForgeZeroCommit builds a ValidKeyProof for a modulus n = P*Q with P = 2*a^e+1 (for e > 1 the
+// number (P-1)/2 is composite: P is no safe prime) and Q = 2*b+1, and for an arbitrary list of bases,
+// in which the Pedersen commitment to p and/or the Pedersen commitment to N of the bases-are-squares
+// proof are a representative of 0 modulo the group prime. Every commitment the verifier reconstructs
+// through such an element is 0 whatever the responses are, so the prover hashes zeros in those places
+// and needs no witness for the relations they take part in. Everything else is computed with the
+// package's own prover functions for values of the prover's choice.
+package keyproof
+
+import (
+	"errors"
+
+	"github.com/privacybydesign/gabi/big"
+	"github.com/privacybydesign/gabi/internal/common"
+	"github.com/privacybydesign/gabi/zkproof"
+)
+
+func verifPow(b *big.Int, e int) *big.Int { return new(big.Int).Exp(b, big.NewInt(int64(e)), nil) }
+
+// square root modulo a^e * b (a, b odd primes), nil if there is none
+func verifSqrt(x, a *big.Int, e int, b *big.Int) *big.Int {
+	ae := verifPow(a, e)
+	xa := new(big.Int).Mod(x, ae)
+	if new(big.Int).Mod(xa, a).Sign() == 0 {
+		return nil
+	}
+	r, ok := common.PrimeSqrt(new(big.Int).Mod(xa, a), a)
+	if !ok {
+		return nil
+	}
+	r = new(big.Int).Set(r)
+	for i := 0; i < e; i++ { // Hensel lifting
+		f := new(big.Int).Sub(new(big.Int).Mul(r, r), xa)
+		f.Mul(f, new(big.Int).ModInverse(new(big.Int).Lsh(r, 1), ae))
+		r.Mod(r.Sub(r, f), ae)
+	}
+	rb, ok := common.PrimeSqrt(new(big.Int).Mod(x, b), b)
+	if !ok {
+		return nil
+	}
+	return common.Crt(r, ae, rb, b)
+}
+
+// almostSafePrimeProductBuildProof for phi(n) = 4 * a^e * b
+func verifASPP(a *big.Int, e int, b, n, challenge *big.Int, commit almostSafePrimeProductCommit) (AlmostSafePrimeProductProof, bool) {
+	proof := AlmostSafePrimeProductProof{Nonce: commit.nonce, Commitments: commit.commitments}
+	odd := new(big.Int).Mul(verifPow(a, e), b)
+	phi := new(big.Int).Lsh(odd, 2)
+	for i := range almostSafePrimeProductIters {
+		x := common.GetHashNumber(challenge, big.NewInt(3), i, uint(2*n.BitLen()))
+		x1 := new(big.Int).Mod(new(big.Int).Mod(new(big.Int).Add(commit.logs[i], x), phi), odd)
+		x3 := new(big.Int).Mod(new(big.Int).Mul(new(big.Int).ModInverse(big.NewInt(2), odd), x1), odd)
+		var r *big.Int
+		for _, c := range []*big.Int{x1, new(big.Int).Sub(odd, x1), x3, new(big.Int).Sub(odd, x3)} {
+			if r = verifSqrt(c, a, e, b); r != nil {
+				break
+			}
+		}
+		if r == nil {
+			return proof, false
+		}
+		proof.Responses = append(proof.Responses, r)
+	}
+	return proof, true
+}
+
+// isSquareProofStructure.commitmentsFromSecrets with roots of the prover's choice; with zeroN the commitment to N
+// is 0 and zeros stand where the verifier will reconstruct through it
+func verifIsSquare(s *isSquareProofStructure, g zkproof.Group, roots []*big.Int, zeroN bool, z *big.Int) ([]*big.Int, isSquareProofCommit) {
+	var list []*big.Int
+	zero := big.NewInt(0)
+	k := len(s.squares)
+	commit := isSquareProofCommit{squares: make([]pedersenCommit, k), roots: make([]pedersenCommit, k),
+		rootRangeCommit: make([]rangeCommit, k), rootValidCommit: make([]multiplicationProofCommit, k)}
+	var baseList []zkproof.BaseLookup
+	var secretList []zkproof.SecretLookup
+	for i, val := range s.squares {
+		list, commit.squares[i] = s.squaresPedersen[i].commitmentsFromSecrets(g, list, val)
+		baseList, secretList = append(baseList, &commit.squares[i]), append(secretList, &commit.squares[i])
+	}
+	for i := range s.squares {
+		list, commit.roots[i] = s.rootsRep[i].commitmentsFromSecrets(g, list, roots[i])
+		baseList, secretList = append(baseList, &commit.roots[i]), append(secretList, &commit.roots[i])
+	}
+	if zeroN {
+		_, commit.n = s.nPedersen.commitmentsFromSecrets(g, nil, s.n) // only to have secrets named N, N_hider
+		list = append(list, z, zero)                                  // N = 0 (as it is sent), and N^c * g^x * h^y = 0
+	} else {
+		list, commit.n = s.nPedersen.commitmentsFromSecrets(g, list, s.n)
+	}
+	baseList, secretList = append(baseList, &commit.n, &g), append(secretList, &commit.n)
+	bases, secrets := zkproof.NewBaseMerge(baseList...), zkproof.NewSecretMerge(secretList...)
+
+	list = append(list, s.n)
+	list = append(list, s.squares...)
+	if zeroN {
+		list = append(list, zero) // nRep: (N^-1 * g^n)^c * h^x = 0
+	} else {
+		list = s.nRep.CommitmentsFromSecrets(g, list, &bases, &secrets)
+	}
+	for i := range s.squaresRep {
+		list = s.squaresRep[i].CommitmentsFromSecrets(g, list, &bases, &secrets)
+	}
+	for i := range s.rootsRange {
+		list, commit.rootRangeCommit[i] = s.rootsRange[i].commitmentsFromSecrets(g, list, &bases, &secrets)
+	}
+	for i := range s.rootsValid {
+		var loc []*big.Int
+		loc, commit.rootValidCommit[i] = s.rootsValid[i].commitmentsFromSecrets(g, nil, &bases, &secrets)
+		if zeroN {
+			loc[2] = zero // multRepresentation: s_i^c * r_i^x * N^-y * h^z = 0
+		}
+		list = append(list, loc...)
+	}
+	return list, commit
+}
+
+// VerifForgeZeroCommit: see the package comment of this file. pprime and qprime are the values the prover commits to
+// as (p-1)/2 and (q-1)/2 (any primes of the right size: with zeroP nothing ties them to n); roots are the values
+// committed to as square roots of the bases; zeroRep is the representative of 0 that is sent (nil: 0).
+func VerifForgeZeroCommit(a *big.Int, e int, b *big.Int, bases, roots []*big.Int, pprime, qprime *big.Int, zeroP, zeroN bool, zeroRep func(groupPrime *big.Int) *big.Int) (ValidKeyProof, *big.Int, error) {
+	one, zero := big.NewInt(1), big.NewInt(0)
+	P := new(big.Int).Add(new(big.Int).Lsh(verifPow(a, e), 1), one)
+	Q := new(big.Int).Add(new(big.Int).Lsh(b, 1), one)
+	n := new(big.Int).Mul(P, Q)
+	s := NewValidKeyProofStructure(n, bases)
+	GroupPrime := findSafePrime(n.BitLen() + 2*rangeProofEpsilon + 10)
+	g, ok := zkproof.BuildGroup(GroupPrime)
+	if !ok {
+		return ValidKeyProof{}, nil, errors.New("group")
+	}
+	z := zero // the representative of 0 that is sent (and hashed as it is)
+	if zeroRep != nil {
+		z = zeroRep(GroupPrime)
+	}
+
+	list, PprimeSecret := s.pprime.commitmentsFromSecrets(g, nil, pprime)
+	list, QprimeSecret := s.qprime.commitmentsFromSecrets(g, list, qprime)
+	var PSecret pedersenCommit
+	var PQNRel secret
+	if zeroP {
+		list = append(list, z, zero) // p = 0 (as it is sent), and p^c * g^x * h^y = 0
+	} else {
+		// honest: the committed p is 2*pprime+1 (the caller passes the true factors)
+		list, PSecret = s.p.commitmentsFromSecrets(g, list, new(big.Int).Add(new(big.Int).Lsh(pprime, 1), one))
+	}
+	list, QSecret := s.q.commitmentsFromSecrets(g, list, new(big.Int).Add(new(big.Int).Lsh(qprime, 1), one))
+	var bases2 zkproof.BaseMerge
+	var secrets zkproof.SecretMerge
+	if zeroP {
+		bases2 = zkproof.NewBaseMerge(&g, &QSecret, &PprimeSecret, &QprimeSecret)
+		secrets = zkproof.NewSecretMerge(&QSecret, &PprimeSecret, &QprimeSecret)
+	} else {
+		PQNRel = newSecret(g, "pqnrel", new(big.Int).Mod(new(big.Int).Mul(PSecret.hider.secretv, QSecret.secretv.secretv), g.Order))
+		bases2 = zkproof.NewBaseMerge(&g, &PSecret, &QSecret, &PprimeSecret, &QprimeSecret)
+		secrets = zkproof.NewSecretMerge(&PSecret, &QSecret, &PprimeSecret, &QprimeSecret, &PQNRel)
+	}
+	list = append(list, GroupPrime, s.n)
+	if zeroP {
+		list = append(list, zero) // pPprimeRel: (p * pprime^-2 * g^-1)^c * ... = 0
+	} else {
+		list = s.pPprimeRel.CommitmentsFromSecrets(g, list, &bases2, &secrets)
+	}
+	list = s.qQprimeRel.CommitmentsFromSecrets(g, list, &bases2, &secrets)
+	if zeroP {
+		list = append(list, zero) // pQNRel: g^(n*c) * p^x * h^-y = 0
+	} else {
+		list = s.pQNRel.CommitmentsFromSecrets(g, list, &bases2, &secrets)
+	}
+	list, PprimeIsPrimeCommit := s.pprimeIsPrime.commitmentsFromSecrets(g, list, &bases2, &secrets)
+	list, QprimeIsPrimeCommit := s.qprimeIsPrime.commitmentsFromSecrets(g, list, &bases2, &secrets)
+	tail, BasesValidCommit := verifIsSquare(&s.basesValid, g, roots, zeroN, z)
+
+	// the part that works modulo n (no group elements): honest for the true factorisation of n
+	Pp, Qp := new(big.Int).Rsh(P, 1), new(big.Int).Rsh(Q, 1)
+	phi := new(big.Int).Lsh(new(big.Int).Mul(Pp, Qp), 2)
+	var challenge *big.Int
+	var qspp QuasiSafePrimeProductProof
+	found := false
+	for try := 0; try < 200 && !found; try++ {
+		mid, qc := quasiSafePrimeProductBuildCommitments(nil, Pp, Qp)
+		challenge = common.HashCommit(append(append(append([]*big.Int{}, list...), mid...), tail...), false)
+		qspp.ASPPproof, found = verifASPP(a, e, b, n, challenge, qc.asppCommit)
+	}
+	if !found {
+		return ValidKeyProof{}, nil, errors.New("no answerable ASPP challenge in 200 tries")
+	}
+	qspp.SFproof = squareFreeBuildProof(n, phi, challenge, big.NewInt(0))
+	qspp.PPPproof = primePowerProductBuildProof(P, Q, challenge, big.NewInt(1))
+	qspp.DPPproof = disjointPrimeProductBuildProof(P, Q, challenge, big.NewInt(2))
+
+	junk := func() PedersenProof {
+		return PedersenProof{Commit: new(big.Int).Set(z), Sresult: Proof{Result: big.NewInt(1)}, Hresult: Proof{Result: big.NewInt(1)}}
+	}
+	proof := ValidKeyProof{
+		GroupPrime:         GroupPrime,
+		Challenge:          challenge,
+		PProof:             junk(),
+		PQNRel:             Proof{Result: big.NewInt(1)},
+		QProof:             s.q.buildProof(g, challenge, QSecret),
+		PprimeProof:        s.pprime.buildProof(g, challenge, PprimeSecret),
+		QprimeProof:        s.qprime.buildProof(g, challenge, QprimeSecret),
+		PprimeIsPrimeProof: s.pprimeIsPrime.buildProof(g, challenge, PprimeIsPrimeCommit, &secrets),
+		QprimeIsPrimeProof: s.qprimeIsPrime.buildProof(g, challenge, QprimeIsPrimeCommit, &secrets),
+		QSPPproof:          qspp,
+		BasesValidProof:    s.basesValid.buildProof(g, challenge, BasesValidCommit),
+	}
+	if !zeroP {
+		proof.PProof = s.p.buildProof(g, challenge, PSecret)
+		proof.PQNRel = PQNRel.buildProof(g, challenge)
+	}
+	if zeroN {
+		proof.BasesValidProof.NProof = junk()
+	}
+	return proof, n, nil
+}
